@@ -1,16 +1,14 @@
-(* Props/C06.v – Script evaluation agrees with reference Script semantics.
-   MODEL = Model/ScriptEval.v (scripteval.py as written), SPEC = Spec/ScriptRef.v (reference
-   semantics).  Both are parametric in the signature-check oracle and the hash functions.
-   The full statement is
-     forall script st flags,  eval_script (rev st) script
-        = match eval_ref st script with Some fin => Ok (rev fin) | None => Err EvalErr end
-   Proved here: the statement for every script whose operations include no
-   CHECKSIG / CHECKMULTISIG (all pushes, flow control in executed and unexecuted branches,
-   stack manipulation, 4-byte arithmetic and comparison, hashes, CODESEPARATOR, NOPs,
-   disabled and reserved opcodes, all four limits) – [C06_eval_partial_nosig]; the signature
-   opcodes are covered by the correspondence run only (see PARTIAL in tools/props/C06.py). *)
+(* Props/C06.v – Script evaluation agrees with reference Script semantics on every program.
+   MODEL = Model/ScriptEval.v (scripteval.py as written: end-topped Python lists with every
+   stack[-n] / pop / del / insert an explicit IndexError branch, the elif chain in its order,
+   _CheckMultiSig's index arithmetic and while loop, FindAndDelete over raw_iter, both
+   asserts of VerifyScript), SPEC = Spec/ScriptRef.v (reference semantics, DESIGN.md
+   Appendix A).  Both are parametric in the signature-check oracle [checksig sig pk code']
+   (code' = subscript without CODESEPARATORs; false on an empty signature) and in the three
+   hash functions; sizes below 2^31 bytes/items are assumed of the initial stack and of the
+   hash outputs (beyond, Python's struct.pack(">I", len) inside bn2vch would overflow). *)
 From BV Require Import Common.Base Common.Tx Common.ScriptFlags Gen.ScriptConsts Gen.EvalConsts
-  Model.Script Model.ScriptEval Spec.Script Spec.ScriptRef Proofs.ScriptEval.
+  Model.Script Model.ScriptEval Spec.Script Spec.ScriptRef Proofs.ScriptEval Proofs.ScriptFull.
 
 (* the regenerated limits are the reference ones *)
 Theorem C06_limits :
@@ -23,42 +21,46 @@ Theorem C06_opcode_table : forall op, 0 <= op < 256 ->
   mem op DISABLED_OPCODES = disabled op /\ kind_of op = ref_kind op.
 Proof. intros op H. split; [exact (disabled_ok op H) | exact (kind_ok op H)]. Qed.
 
-(* one operation of the loop: same effect on the (reversed) stacks, altstack, condition stack
-   and counter, EvalScriptError exactly when the reference fails *)
-Theorem C06_step_partial_nosig : forall checksig ripemd160 sha1 sha256 fl,
+(* EvalScript: for EVERY script (any byte string), every initial stack, every flag set:
+   the evaluation fails exactly when the reference fails – and then with EvalScriptError,
+   nothing else – and otherwise leaves exactly the reference's final stack *)
+Theorem C06_eval : forall checksig ripemd160 sha1 sha256 fl,
+  (forall pk code, checksig [] pk code = false) ->
   (forall x, small (ripemd160 x) /\ small (sha1 x) /\ small (sha256 x)) ->
-  forall scriptIn r pb op d idx rest code,
-  Spec.Script.get_op code = Ok (op, d, rest) -> inv r -> nosig op = true ->
-  match ref_step checksig ripemd160 sha1 sha256 fl op d rest r with
-  | Some r' => (exists pb', step checksig ripemd160 sha1 sha256 fl scriptIn (abs r pb) (mk_sop op d idx) = Ok (abs r' pb')) /\ inv r'
-  | None => step checksig ripemd160 sha1 sha256 fl scriptIn (abs r pb) (mk_sop op d idx) = Err EvalErr
-  end.
-Proof. exact step_sim. Qed.
+  forall script st, Forall small st -> lenZ st < 2^31 ->
+  eval_script checksig ripemd160 sha1 sha256 fl (rev st) script
+  = match eval_ref checksig ripemd160 sha1 sha256 fl st script with Some fin => Ok (rev fin) | None => Err EvalErr end.
+Proof. intros cs r s1 s2 fl CE HS script st A B. exact (proj1 (eval_full cs r s1 s2 fl CE HS script st A B)). Qed.
 
-(* EvalScript: fails exactly when the reference fails – and then with EvalScriptError, no
-   other exception –, otherwise leaves exactly the reference's final stack; for every
-   script without signature-checking operations, every initial stack (items shorter than
-   2^31 bytes, fewer than 2^31 of them), every flag set, any hash functions with outputs
-   shorter than 2^31 bytes *)
-Theorem C06_eval_partial_nosig : forall checksig ripemd160 sha1 sha256 fl,
+(* VerifyScript: for every scriptSig / scriptPubKey (any byte strings) and every flag
+   combination in which CLEANSTACK comes with P2SH: accepted exactly when the reference
+   accepts; every rejection is an EvalScriptError or a VerifyScriptError *)
+Theorem C06_verify : forall checksig ripemd160 sha1 sha256 fl,
+  (forall pk code, checksig [] pk code = false) ->
   (forall x, small (ripemd160 x) /\ small (sha1 x) /\ small (sha256 x)) ->
-  forall scriptIn st, Forall small st -> lenZ st < 2^31 ->
-  forallb (fun o => nosig (sop_opcode o)) (fst (ref_parse scriptIn)) = true ->
-  eval_script checksig ripemd160 sha1 sha256 fl (rev st) scriptIn
-  = match eval_ref checksig ripemd160 sha1 sha256 fl st scriptIn with Some fin => Ok (rev fin) | None => Err EvalErr end.
-Proof. exact eval_nosig. Qed.
+  (f_cleanstack fl = true -> f_p2sh fl = true) ->
+  forall scriptSig scriptPubKey,
+  match verify_script checksig ripemd160 sha1 sha256 fl scriptSig scriptPubKey with
+  | Ok _ => verify_ref checksig ripemd160 sha1 sha256 fl scriptSig scriptPubKey = true
+  | Err e => verify_ref checksig ripemd160 sha1 sha256 fl scriptSig scriptPubKey = false /\ (e = EvalErr \/ e = VerifyErr)
+  end.
+Proof. exact verify_full. Qed.
 
 Example C06_nonvacuous :
-  let cs := fun _ _ _ : bytes => false in let h := fun x : bytes => x in
-  let fl := {| f_p2sh := true; f_nulldummy := false; f_cleanstack := false; f_discourage_nops := false |} in
+  let cs := fun sig _ _ : bytes => negb (is_nil sig) in let h := fun x : bytes => firstn 20 x in
+  let fl := {| f_p2sh := true; f_nulldummy := true; f_cleanstack := true; f_discourage_nops := false |} in
   (* 2 3 ADD 5 EQUAL ; IF 1 ELSE RETURN ENDIF *)
   let s := [x52; x53; x93; x55; x87; x63; x51; x67; x6a; x68] in
-  forallb (fun o => nosig (sop_opcode o)) (fst (ref_parse s)) = true /\
   eval_ref cs h h h fl [] s = Some [[x01]] /\ eval_script cs h h h fl [] s = Ok [[x01]] /\
-  eval_ref cs h h h fl [] [x6a] = None /\ eval_script cs h h h fl [] [x6a] = Err EvalErr.
+  eval_ref cs h h h fl [] [x6a] = None /\ eval_script cs h h h fl [] [x6a] = Err EvalErr /\
+  (* <sig> | <pk> CHECKSIG ;   0 <sig> 1 | <pk> 1 CHECKMULTISIG *)
+  verify_ref cs h h h fl [x01; x30] [x01; x02; xac] = true /\ verify_script cs h h h fl [x01; x30] [x01; x02; xac] = Ok tt /\
+  verify_ref cs h h h fl [x00; x01; x30] [x51; x01; x02; x51; xae] = true /\
+  verify_script cs h h h fl [x00; x01; x30] [x51; x01; x02; x51; xae] = Ok tt /\
+  verify_script cs h h h fl [x51; x01; x30] [x51; x01; x02; x51; xae] = Err EvalErr.   (* NULLDUMMY *)
 Proof. vm_compute. repeat split; reflexivity. Qed.
 
 Print Assumptions C06_limits.
 Print Assumptions C06_opcode_table.
-Print Assumptions C06_step_partial_nosig.
-Print Assumptions C06_eval_partial_nosig.
+Print Assumptions C06_eval.
+Print Assumptions C06_verify.
